@@ -306,4 +306,37 @@ Theorem C14_fragment_parents_precede_children :
   forall ss : stmts, wf ss = true -> parents_ok (r_lines (parse_file_model (render_prog ss) [])) = true.
 Proof. exact fragment_parents_ok. Qed.
 
+(* the same two clauses for programs with declaration sections *)
+From PasfmtVerif Require Import Model.Fragment Proofs.FragmentProofs Proofs.FragmentParentsProofs Proofs.FragmentUnitProofs Model.Format Proofs.FormatFragmentProofs.
+Theorem C14_fragment_unit_single_eof_line :
+  forall (ds : list decl) (ss : stmts),
+  wf ss = true ->
+  let r := parse_file_model (render_unit ds ss) [] in
+  let e := (length (render_decls ds) + 1 + length (render ss) + 2)%nat in
+  exists pre : list lline,
+    r_lines r =
+    pre ++ [{| ll_type := LLT_Eof; ll_level := 0; ll_parent := None; ll_toks := [e] |}] /\
+    Forall (fun l : lline => ll_type l <> LLT_Eof) pre /\
+    nth_error (render_unit ds ss) e = Some RTT_Eof /\ length (render_unit ds ss) = S e.
+Proof. exact fragment_unit_single_eof_line. Qed.
+
+Theorem C14_fragment_unit_parents_precede_children :
+  forall (ds : list decl) (ss : stmts),
+  wf ss = true -> parents_ok (r_lines (parse_file_model (render_unit ds ss) [])) = true.
+Proof. exact fragment_unit_parents_ok. Qed.
+
+(* exactly which lines have a parent: those whose first token lies in the body of an if/while, a case arm or an exception handler;
+   the parent token is the then / else / do / colon in front of that body *)
+From PasfmtVerif Require Import Model.Fragment Proofs.FragmentProofs Proofs.FragmentParentsProofs Proofs.FragmentUnitProofs Model.Format Proofs.FormatFragmentProofs.
+Theorem C14_fragment_line_has_a_parent_iff_in_a_body :
+  forall ss : stmts,
+  wf ss = true ->
+  forall (l : lline) (f : nat),
+  In l (r_lines (parse_file_model (render_prog ss) [])) ->
+  hd_error (ll_toks l) = Some f ->
+  (ll_parent l <> None <-> in_spans (body_spans ss) f = true) /\
+  (forall i t : nat,
+   ll_parent l = Some (i, t) -> exists a b : nat, In (t, a, b) (body_spans ss)).
+Proof. exact fragment_parent_iff. Qed.
+
 
